@@ -267,3 +267,20 @@ func checkRepCoverage(cases []repCase) {
 }
 
 func (r repCase) id() string { return fmt.Sprintf("%s[%s]", r.Op, r.Desc) }
+
+// warmAllOperators runs every representative case of every operator once (operator route, results ignored) before a
+// check starts: the cases of the property are then explored in a process in which every operator - and every table,
+// cache or registry they share - has already been used, as in any program that runs more than one kind of model.
+// (What the FIRST use of the library does is the subject of C17's cold-start and global-state passes, which run in
+// fresh processes of their own.)
+func warmAllOperators() {
+	for _, rc := range repCases() {
+		func() {
+			defer func() { recover() }()
+			if op, err := opset13.GetOperator(rc.Op); err == nil {
+				op.GetInputTypeConstraints()
+			}
+			hx.RunOp(rc.opCase())
+		}()
+	}
+}
